@@ -396,6 +396,29 @@ theorem stage_wraps_after_256 (s : State) (inv : s.Inv) :
   have := (stage_release_affects_exactly _ inv').1
   rw [this, hst, increaseStageTimes_nodes]
 
+/-! ## the global overloads register blocks with the allocator of their family -/
+
+set_option maxRecDepth 100000 in
+/-- Every `operator new / new[]` overload of MemoryLeakWarningPlugin.cpp (plain, file/line with `int` or `size_t` line,
+    `std::nothrow`) and `cpputest_malloc_location`, with the plain and with the thread-safe overloads switched on, ends in
+    `allocMemory` with the CURRENT ALLOCATOR OF ITS FAMILY (so the leak entry shows "new" / "new []" / "malloc"), passing
+    file/line iff the form has them.  Regenerated: the operators'
+    forwarding, both function-pointer tables, every `mem_leak_*` / `threadsafe_*` function's allocator. -/
+theorem overloads_register_the_right_allocator : acquireFormsWiredCorrectly = true := by decide
+
+/-- An acquiring function executed as regenerated is the modelled `acquire` of its family (with `<unknown>:0` when the
+    function has no location) — so what is proved about `alloc` holds for every acquiring overload, in both modes. -/
+theorem acquire_wrappers_are_acquire :
+    ∀ w ∈ Gen.LeakDetector.acquireWrappers, w.isRealloc = false →
+      ∀ (c : Current) (s : State) (size : Nat) (file : String) (line result : Nat) (nodeOk : Bool) (fill : UInt8),
+        acquireBy w c s size file line result nodeOk fill =
+          acquire c (familyOfGetter w.getter) s size (if w.withLocation then file else "<unknown>")
+            (if w.withLocation then line else 0) result nodeOk fill := by
+  intro w hw hr c s size file line result nodeOk fill
+  simp only [Gen.LeakDetector.acquireWrappers, List.mem_cons, List.mem_nil_iff, or_false] at hw
+  rcases hw with rfl | rfl | rfl | rfl | rfl | rfl | rfl | rfl | rfl | rfl | rfl | rfl | rfl | rfl | rfl | rfl <;>
+    first | rfl | exact absurd hr (by decide)
+
 /-! ## non-vacuity: a concrete history with three blocks in one bucket, a release from the middle of the
 chain, a stage release and a report -/
 
